@@ -104,6 +104,10 @@ fn main() {
             (a(&[sub, "--source", "none"]), None),
             (a(&[sub, "--source", "stdin"]), Some(valid_doc.clone())),
             (a(&[sub, "--source", "none", "--tag-version", "18446744073709551615.4294967295.0-rc.4294967295", "--dirty", "--distance", "4294967295"]), None),
+            // stdin objects with unusual precedence orders (empty, partial, reversed): bumps must fail cleanly or work
+            (a(&[sub, "--source", "stdin"]), Some(valid_doc.replace("build:[var(BumpedBranch)])", "build:[var(BumpedBranch)],precedence_order:[])"))),
+            (a(&[sub, "--source", "stdin"]), Some(valid_doc.replace("build:[var(BumpedBranch)])", "build:[var(BumpedBranch)],precedence_order:[Patch,Major])"))),
+            (a(&[sub, "--source", "stdin"]), Some(valid_doc.replace("build:[var(BumpedBranch)])", "build:[var(BumpedBranch)],precedence_order:[Build,ExtraCore,Dev,Post,PreReleaseNum,PreReleaseLabel,Core,Patch,Minor,Major,Epoch])"))),
         ];
         for (base, stdin) in &contexts {
             for f in &flags {
@@ -115,7 +119,7 @@ fn main() {
         }
         // all pairs of flags x small pool, first context (and stdin context in thorough)
         for (ci, (base, stdin)) in contexts.iter().enumerate() {
-            if ci == 1 || ci == 3 || (quick && ci == 2) { continue; }
+            if ci == 1 || ci == 3 || ci >= 4 || (quick && ci == 2) { continue; }
             for (i, f) in flags.iter().enumerate() { for g in flags.iter().skip(i + 1) {
                 if f.long == "source" || g.long == "source" || f.long == "directory" || g.long == "directory" { continue; }
                 let fv: Vec<&String> = if f.takes_value { spool.iter().collect() } else { vec![&spool[0]] };
@@ -123,6 +127,8 @@ fn main() {
                 for x in &fv { for y in &gv { let mut args = base.clone(); args.extend(flag_args(f, x)); args.extend(flag_args(g, y)); jobs.push((args, stdin.clone())); } }
             }}
         }
+        // -C / --directory values (git source)
+        for d in ["", "/nonexistent/zv", "/dev/null", "/", "é€", "a\nb", "."] { jobs.push((a(&[sub, "-C", d]), None)); jobs.push((a(&[sub, "--source", "git", "--directory", d, "--tag-version", "1.2.3"]), None)); }
         // malformed stdin documents
         for d in &bad_docs { for fmt in ["semver", "pep440", "zerv"] { jobs.push((a(&[sub, "--source", "stdin", "--output-format", fmt]), Some(d.clone()))); jobs.push((a(&[sub, "--source", "stdin", "--schema", "standard", "--output-format", fmt]), Some(d.clone()))); } }
     }
